@@ -8,6 +8,7 @@ import (
 	"io"
 	"os"
 	"sync"
+	"time"
 
 	"github.com/sirupsen/logrus"
 	"verif/harness/internal/qrun"
@@ -76,10 +77,41 @@ func queryMain(args []string) error {
 	var mu sync.Mutex
 	var wg sync.WaitGroup
 	jobs := make(chan int, 256)
+	// watchdog: a query that does not come back is an answer that was never given (a library call cannot be interrupted: the
+	// report so far is printed with the case marked and the process ends)
+	type running struct {
+		idx   int
+		since time.Time
+	}
+	current := make([]running, *workers)
+	for w := range current {
+		current[w].idx = -1
+	}
+	go func() {
+		for {
+			time.Sleep(time.Second)
+			mu.Lock()
+			for _, r := range current {
+				if r.idx >= 0 && time.Since(r.since) > 30*time.Second {
+					c := &cases[r.idx]
+					m := qrun.Mismatch{Case: r.idx, Ds: c.Ds, Query: qrun.Query(c.Q), Path: "QueryIds", Kind: "hang", Want: c.Ids, WantN: c.Count,
+						Err: "the query did not return within 30s", Owners: "C01,C02,C19", Sig: "QueryIds:hang"}
+					rep.Mismatches++
+					rep.BySig[m.Sig]++
+					rep.Samples = append(rep.Samples, m)
+					out, _ := json.Marshal(rep)
+					fmt.Println(string(out))
+					os.Exit(0)
+				}
+			}
+			mu.Unlock()
+		}
+	}()
 	for w := 0; w < *workers; w++ {
 		wg.Add(1)
 		dir := fmt.Sprintf("%s/qw%d", *scratch, w)
 		_ = os.MkdirAll(dir, 0700)
+		w := w
 		go func(dir string) {
 			defer wg.Done()
 			envs := map[string]*qrun.Env{}
@@ -104,8 +136,12 @@ func queryMain(args []string) error {
 					}
 					envs[c.Ds] = env
 				}
+				mu.Lock()
+				current[w] = running{i, time.Now()}
+				mu.Unlock()
 				ms := env.Run(i, c)
 				mu.Lock()
+				current[w].idx = -1
 				rep.Cases++
 				if len(c.Ids) > 0 && len(c.Ids) < len(env.Names) {
 					rep.NonTrivial++
